@@ -46,4 +46,11 @@ theorem C17_tie_guard_ratelimiters_sound (f : String × Sk) (hf : f ∈ CM.Gen.G
 theorem C17_tie_guard_ratelimiters_covers :
     ["acmeClient.throttle"].all (fun n => (CM.Gen.Guard.ratelimiters_funcs ++ CM.Gen.Guard.ratelimiters_helpers).any (fun f => f.1 == n)) = true := by decide
 
+/-- look-up and creation of a CA/account's limiter are ONE critical section: `throttle` takes
+the map's mutex exactly once (a second acquisition between the two would let simultaneous
+first uses each create their own limiter — every access still "under the lock") -/
+theorem C17_tie_throttle_one_critical_section :
+    (CM.Gen.Guard.ratelimiters_funcs.filter (fun f => f.1 == "acmeClient.throttle")).map
+      (fun f => ((CM.Skel.acts f.2).filter (· == "lock")).length) = [1] := by decide
+
 end CM.Tie.GuardRing
